@@ -21,6 +21,10 @@ def _match_spec(spec, val):
         if 'subset_of' in spec: return val is not None and set(val) <= set(spec['subset_of'])
         if 'superset_of' in spec: return val is not None and set(val) >= set(spec['superset_of'])
         if 'intersects' in spec: return val is not None and bool(set(val) & set(spec['intersects']))
+        if 'all_re' in spec:
+            return bool(val) and all(re.search(spec['all_re'], str(x)) for x in val)
+        if 'equals_set' in spec:
+            return val is not None and set(val) == set(spec['equals_set'])
         if 'glob' in spec:
             import fnmatch
             return val is not None and fnmatch.fnmatchcase(str(val), spec['glob'])
